@@ -364,6 +364,23 @@ def _wrap_unconditional(ctx, index, spy, region, rfacts):
         facts = rfacts.at(g, c, ascend_from=region.funcs[1:]) or {}
         extra = []
         allowed = set(spy.params) | set(g.params) | {"replacement_node", "hasattr", "isinstance", "None"}
+        # explaining variables: a local bound exactly once to an attribute chain of an allowed name
+        # (`annotation = replacement_node.annotation`) stands for that place, not for a new dependency
+        lb = {}
+        for st in ast.walk(g.node):
+            if isinstance(st, (ast.Assign, ast.AnnAssign, ast.AugAssign, ast.NamedExpr, ast.For, ast.comprehension, ast.withitem)):
+                tg = st.targets if isinstance(st, ast.Assign) else [getattr(st, "target", None) or getattr(st, "optional_vars", None)]
+                for t_ in tg:
+                    for x in ast.walk(t_) if t_ is not None else ():
+                        if isinstance(x, ast.Name):
+                            lb.setdefault(x.id, []).append(st)
+        for nm, sts in lb.items():
+            if len(sts) == 1 and isinstance(sts[0], (ast.Assign, ast.AnnAssign)) and isinstance(sts[0].value, ast.Attribute):
+                root = sts[0].value
+                while isinstance(root, ast.Attribute):
+                    root = root.value
+                if isinstance(root, ast.Name) and root.id in allowed:
+                    allowed.add(nm)
         for text in facts:
             try:
                 tree = ast.parse(text, mode="eval")
